@@ -97,7 +97,7 @@ type PeerSpec struct {
 	BackendCert string `json:"backend_cert,omitempty"`
 	// Stall: the peer stops responding (keeps the connection open, reads
 	// nothing more, writes nothing) when it reaches this stage:
-	// accept | proxy-reply | socks-reply | backend-tls | ws-reply
+	// accept | proxy-reply | socks-reply | backend-tls | ws-reply | ws-reply-head | ws-error-body
 	Stall string `json:"stall,omitempty"`
 	// SocksAuth: the SOCKS5 server demands username/password when offered.
 	BadWSReply bool `json:"bad_ws_reply,omitempty"`
@@ -359,6 +359,17 @@ func runPeer(raw net.Conn, spec PeerSpec, log *PeerLog) {
 	log.UpgradeHost = req.Host
 	log.mu.Unlock()
 	if spec.Stall == "ws-reply" {
+		stall(c)
+		return
+	}
+	if spec.Stall == "ws-error-body" || spec.Stall == "ws-reply-head" {
+		// a refusal that announces more body than it delivers, or half a
+		// status line, then silence
+		if spec.Stall == "ws-error-body" {
+			c.Write([]byte("HTTP/1.1 403 Forbidden\r\nContent-Length: 100\r\n\r\ndenied!"))
+		} else {
+			c.Write([]byte("HTTP/1.1 101 Switching Proto"))
+		}
 		stall(c)
 		return
 	}
